@@ -19,6 +19,9 @@ REPO = os.environ.get('VERIF_REPO', '/repo')
 
 # unit -> function -> list of replays
 REGISTRY = {
+    'disp': {
+        'clear': [dict(kind='harness', name='disp_clear')],
+    },
     'driver': {
         'run_rules_inner': [dict(kind='egg', file='replays/driver/panic_before_rebuild.egg')],
         'flush_updates_inner': [dict(kind='egg', file='replays/driver/panic_before_rebuild.egg')],
@@ -48,7 +51,18 @@ def run_egg(binary, path, timeout=60, args=()):
 
 
 def run_harness(name, timeout):
-    d = os.path.join(VERIF, 'replays', name)
+    import shutil, tempfile
+    src = os.path.join(VERIF, 'replays', name)
+    base = os.environ.get('VERIF_WORK') or f'/var/tmp/verif-work/{os.getpid()}'
+    d = os.path.join(base, 'replay-' + name)
+    shutil.rmtree(d, ignore_errors=True)
+    shutil.copytree(src, d)
+    with open(os.path.join(d, 'Cargo.toml'), 'w') as f:
+        f.write(open(os.path.join(src, 'Cargo.toml.tmpl')).read().replace('@REPO@', REPO))
+    try:
+        shutil.copy(os.path.join(REPO, 'Cargo.lock'), os.path.join(d, 'Cargo.lock'))
+    except OSError:
+        pass
     env = _env()
     env['CARGO_TARGET_DIR'] = os.path.join(VERIF, '.cache', 'replay-target')
     env['VERIF_REPO'] = REPO
